@@ -658,7 +658,10 @@ def judge_padalg(case):
     spec = MESSAGES[case["msg"]]
     probs = []
     m = c03.build(spec)
-    m.use_edns(0, 0, 1232, pad=case["pad"])
+    # prepad: the OPT already carries a PADDING option (what a forwarder holds after parsing a
+    # padded message) of that many octets
+    opts = [] if case.get("prepad") is None else [dns.edns.GenericOption(dns.edns.OptionType.PADDING, b"\x00" * case["prepad"])]
+    m.use_edns(0, 0, 1232, pad=case["pad"], options=opts)
     key = dns.tsig.Key(c03.mkname(W.name_from_text(case["key"]), False), SECRET, case["alg"])
     m.use_tsig(key)
     origin = c03._ORIGIN_NAME if spec["origin"] else None
@@ -678,6 +681,8 @@ def judge_padalg(case):
                 probs.append(("padalg/tsig-missing", "no TSIG at the end"))
         except W.WireError as e:
             probs.append(("padalg/refparse/" + e.kind, str(e)))
+    if case.get("prepad") is not None:
+        probs = [(s_ + "/opt-already-padded", w_) for s_, w_ in probs]
     return probs
 
 
@@ -686,14 +691,16 @@ def work_padalg(task, col):
     for alg in ALL_TSIG_ALGORITHMS:
         for pad in (16, 128, 468):
             for key in ("key.", "key.example."):
-                case = {"mode": "padalg", "msg": mi, "alg": alg, "pad": pad, "key": key}
-                probs = judge_padalg(case)
-                col.count("evaluations")
-                col.count("padalg_cases")
-                col.nontrivial(("padalg", mi, alg, pad, key))
-                col.outcome("padalg:" + (probs[0][0] if probs else "ok"))
-                for s_, w_ in probs:
-                    col.violation("C08/" + s_, w_ + " [message %d, key %s, pad %d]" % (mi, key, pad), case)
+                for prepad in (None, 0, 5):
+                    case = {"mode": "padalg", "msg": mi, "alg": alg, "pad": pad, "key": key, "prepad": prepad}
+                    probs = judge_padalg(case)
+                    col.count("evaluations")
+                    col.count("padalg_cases")
+                    col.nontrivial(("padalg", mi, alg, pad, key, prepad))
+                    col.outcome("padalg:" + (probs[0][0] if probs else "ok"))
+                    for s_, w_ in probs:
+                        col.violation("C08/" + s_,
+                                      w_ + " [message %d, key %s, pad %d, existing PADDING option %s]" % (mi, key, pad, prepad), case)
 
 
 def work_giant(task, col):
